@@ -11,6 +11,7 @@ package main
 //         timing): k writers with run-length coded payloads, one reader.
 
 import (
+	"bytes"
 	"encoding/json"
 	"fmt"
 	"math/rand"
@@ -35,13 +36,25 @@ type c01Case struct {
 	Ws [][][]c01Run `json:"ws,omitempty"` // writer -> payload -> runs
 	RK int          `json:"rk,omitempty"` // 0 Read loop, 1 WriteTo, 2 ReadAll
 	RN int          `json:"rn,omitempty"` // slice length of the Read loop
+	// RF[w]: writer w feeds all its bytes through one ReadFrom (its payloads are then
+	// the 1024-byte chunks ReadFrom appends) instead of one Write per payload.
+	RF []bool `json:"rf,omitempty"`
+	// Stage 0: everything starts together.
+	// Stage 1: the reader starts only once the plain writers are blocked on the full
+	//          pipe (or done): "a writer blocked on a full pipe makes progress as soon
+	//          as the reader drains it" (ReadAll additionally lifts the limit).
+	// Stage 2: the ReadFrom writers start once the plain writers are blocked (ReadFrom
+	//          lifts the limit, so they must all finish without any reader); the
+	//          reader starts after every writer has closed.
+	Stage int `json:"stage,omitempty"`
 }
 
 type c01FreeObs struct {
 	Out  []c01Run `json:"out"`
 	W    uint64   `json:"w"`
 	R    uint64   `json:"r"`
-	Bad  bool     `json:"bad"`
+	Err  bool     `json:"err"`  // an unexpected error / short write was returned
+	Hang bool     `json:"hang"` // the run did not finish within its deadline
 	Note string   `json:"note,omitempty"`
 }
 
@@ -258,11 +271,60 @@ func c01RandFree(r *rand.Rand, big bool) c01Case {
 		c.Ws = append(c.Ws, pls)
 	}
 	c.RK = r.Intn(3)
+	if r.Intn(3) == 0 {
+		c.Stage = 1
+	}
 	c.RN = []int{1, 2, 3, 7, 64, 4096, 100000}[r.Intn(7)]
 	if big {
 		c.RN = []int{4096, 65536, 1 << 20}[r.Intn(3)]
 	}
 	return c
+}
+
+// c01Chunks: the payloads of a ReadFrom writer = the 1024-byte chunks of its bytes.
+func c01Chunks(runs []c01Run) [][]c01Run {
+	b := c01Expand(runs)
+	var out [][]c01Run
+	for len(b) > 0 {
+		n := 1024
+		if n > len(b) {
+			n = len(b)
+		}
+		out = append(out, c01Rle(b[:n]))
+		b = b[n:]
+	}
+	return out
+}
+
+// c01Staged: the "blocked writer" shapes. Writer 0 (and 1) fill the pipe beyond its
+// limit and block; then the consumer starts (stage 1: Read loop / WriteTo / ReadAll),
+// or another producer calls ReadFrom, which lifts the limit (stage 2).
+func c01Staged() []c01Case {
+	var out []c01Case
+	for _, max := range []int{16, 1024 * 1024} {
+		unit := 10
+		tag := "staged"
+		if max > 1000 {
+			unit = 400000
+			tag = "big"
+		}
+		w0 := [][]c01Run{{{0, unit}}, {{8, unit}}, {{16, unit}, {24, 3}}, {{32, unit}}}
+		w1 := [][]c01Run{{{1, unit}}, {{9, 2 * unit}}}
+		for rk := 0; rk <= 2; rk++ {
+			out = append(out, c01Case{Mode: "free", Tag: tag, strmCtlCase: strmCtlCase{Max: max}, Ws: [][][]c01Run{w0}, RK: rk, RN: 4096, Stage: 1})
+			out = append(out, c01Case{Mode: "free", Tag: tag, strmCtlCase: strmCtlCase{Max: max}, Ws: [][][]c01Run{w0, w1}, RK: rk, RN: 7, Stage: 1})
+		}
+		rf := c01Chunks([]c01Run{{2, 1500}, {10, 700}})
+		for rk := 0; rk <= 2; rk++ {
+			out = append(out, c01Case{Mode: "free", Tag: tag, strmCtlCase: strmCtlCase{Max: max}, Ws: [][][]c01Run{w0, w1, rf}, RF: []bool{false, false, true}, RK: rk, RN: 4096, Stage: 2})
+		}
+	}
+	for i := range out {
+		if out[i].Tag == "big" && out[i].RN < 4096 {
+			out[i].RN = 65536
+		}
+	}
+	return out
 }
 
 func (c01) Gen(seed int64, tier string, emit func(any)) {
@@ -276,6 +338,16 @@ func (c01) Gen(seed int64, tier string, emit func(any)) {
 	emit(c01Seq("seq", 4, c01RF(c01Pattern(11000, 5)), c01K("writeto"), c01K("stats")))
 	emit(c01Seq("seq", 8, c01K("open"), c01W("abc"), c01K("force"), c01W("de"), c01R(2), c01K("readall"), c01K("stats"), c01RF("zz")))
 	emit(c01Seq("seq", 8, c01K("open"), c01W("abc"), c01K("force"), c01R(2), c01K("readall"), c01K("writeto"), c01K("stats")))
+
+	// a writer blocked on the full pipe (limit 1) is released by ReadAll / ReadFrom lifting the limit
+	for _, un := range []strmOp{c01K("readall"), c01RF("z")} {
+		emit(c01Case{Mode: "ctl", Tag: "unblock", strmCtlCase: strmCtlCase{Max: 1,
+			Progs: [][]strmOp{{c01K("open"), c01W("ab"), c01W("c"), c01K("close")}, {un, c01K("stats")}},
+			Sched: []int{0, 0, 0, 0, 0, 0, 0, 0, 0, 1, 1, 0, 0, 0, 0, 0, 1, 1, 1, 1, 1, 1, 1, 1}}})
+	}
+	for _, c := range c01Staged() {
+		emit(c)
+	}
 
 	// exhaustive: every schedule of length L over two threads, a few tiny program pairs
 	L := 10
@@ -350,6 +422,14 @@ func (c *c01Collector) Write(p []byte) (int, error) {
 	return len(p), nil
 }
 
+// c01Deadline: free runs normally take milliseconds (big ones a second or two).
+func c01Deadline(c c01Case) time.Duration {
+	if c.Tag == "big" || c.Max >= 1<<20 {
+		return 30 * time.Second
+	}
+	return 12 * time.Second
+}
+
 func c01RunFree(c c01Case) c01FreeObs {
 	strmMu.Lock()
 	defer strmMu.Unlock()
@@ -378,28 +458,65 @@ func c01RunFree(c c01Case) c01FreeObs {
 	var obs c01FreeObs
 	var bad atomic.Bool
 	var notes sync.Map
+	isRF := func(w int) bool { return w < len(c.RF) && c.RF[w] }
 	for range c.Ws {
 		s.Open()
 	}
-	var wg sync.WaitGroup
-	for _, pls := range c.Ws {
-		wg.Add(1)
-		go func(pls [][]c01Run) {
-			defer wg.Done()
+	var wg, wgW sync.WaitGroup // everything / writers only
+	writer := func(w int, pls [][]c01Run) {
+		defer wg.Done()
+		defer wgW.Done()
+		defer s.Close()
+		if isRF(w) {
+			var all []byte
 			for _, p := range pls {
-				b := c01Expand(p)
-				n, err := s.Write(b)
-				if err != nil || n != len(b) {
-					bad.Store(true)
-					notes.Store("write", fmt.Sprint(n, err))
-				}
+				all = append(all, c01Expand(p)...)
 			}
-			s.Close()
-		}(pls)
+			n, err := s.ReadFrom(bytes.NewReader(all))
+			if err != nil || n != int64(len(all)) {
+				bad.Store(true)
+				notes.Store("readfrom", fmt.Sprint(n, err))
+			}
+			return
+		}
+		for _, p := range pls {
+			b := c01Expand(p)
+			n, err := s.Write(b)
+			if err != nil || n != len(b) {
+				bad.Store(true)
+				notes.Store("write", fmt.Sprint(n, err))
+			}
+		}
+	}
+	start := func(rf bool) {
+		for w, pls := range c.Ws {
+			if isRF(w) == rf {
+				wg.Add(1)
+				wgW.Add(1)
+				go writer(w, pls)
+			}
+		}
+	}
+	wDone := make(chan struct{})
+	// blocked: wait (at most 2 s) until the started writers are done or the pipe is full,
+	// then a moment more so that a writer is inside Write's back-pressure loop
+	blocked := func(done <-chan struct{}) {
+		t0 := time.Now()
+		for time.Since(t0) < 2*time.Second {
+			select {
+			case <-done:
+				return
+			default:
+			}
+			if v := s.VerifSnapshot(); v.Max > 0 && len(v.Buffer) >= v.Max {
+				break
+			}
+			time.Sleep(200 * time.Microsecond)
+		}
+		time.Sleep(3 * time.Millisecond)
 	}
 	col := &c01Collector{}
-	wg.Add(1)
-	go func() {
+	reader := func() {
 		defer wg.Done()
 		switch c.RK {
 		case 0:
@@ -427,25 +544,76 @@ func c01RunFree(c c01Case) c01FreeObs {
 			}
 			col.Write(b)
 		}
-	}()
+	}
+	stage := c.Stage
+	if stage == 2 {
+		hasRF := false
+		for w := range c.Ws {
+			hasRF = hasRF || isRF(w)
+		}
+		if !hasRF {
+			stage = 1 // nothing would ever lift the limit
+		}
+	}
+	deadline := time.After(c01Deadline(c))
 	done := make(chan struct{})
-	go func() { wg.Wait(); close(done) }()
+	go func() {
+		switch stage {
+		case 1:
+			start(false)
+			start(true)
+			go func() { wgW.Wait(); close(wDone) }()
+			blocked(wDone)
+			wg.Add(1)
+			go reader()
+		case 2:
+			plain := make(chan struct{})
+			var wgP sync.WaitGroup
+			for w, pls := range c.Ws {
+				if !isRF(w) {
+					wg.Add(1)
+					wgW.Add(1)
+					wgP.Add(1)
+					go func(w int, pls [][]c01Run) { defer wgP.Done(); writer(w, pls) }(w, pls)
+				}
+			}
+			go func() { wgP.Wait(); close(plain) }()
+			blocked(plain)
+			start(true)
+			wgW.Wait() // no reader yet: ReadFrom lifted the limit, every writer must finish
+			wg.Add(1)
+			go reader()
+		default:
+			start(false)
+			start(true)
+			wg.Add(1)
+			go reader()
+		}
+		wg.Wait()
+		close(done)
+	}()
 	select {
 	case <-done:
-	case <-time.After(60 * time.Second):
-		bad.Store(true)
-		notes.Store("hang", "timeout")
+	case <-deadline:
+		// hang: cancel the pipe (every loop of Stdin polls the context) and give up
+		obs.Hang = true
+		notes.Store("hang", "deadline")
 		s.ForceClose()
 		select {
 		case <-done:
-		case <-time.After(5 * time.Second):
+		case <-time.After(3 * time.Second):
 		}
 	}
 	col.mu.Lock()
 	obs.Out = append([]c01Run{}, col.out...)
 	col.mu.Unlock()
-	obs.W, obs.R = s.Stats()
-	obs.Bad = bad.Load()
+	if obs.Hang {
+		sn, _ := strmSnapOf(s) // a stuck goroutine may hold the mutex: do not block on Stats()
+		obs.W, obs.R = sn.W, sn.R
+	} else {
+		obs.W, obs.R = s.Stats()
+	}
+	obs.Err = bad.Load() && !obs.Hang
 	notes.Range(func(k, v any) bool { obs.Note += fmt.Sprint(k, ":", v, " "); return true })
 	return obs
 }
@@ -481,7 +649,10 @@ func (c01) Run(raw json.RawMessage) Result {
 			ws[i] = coqlit.List(ps)
 		}
 		coq := coqlit.App("Free", fmt.Sprint(c.Max), coqlit.List(ws), fmt.Sprint(c.RK), fmt.Sprint(c.RN),
-			c01RleCoq(o.Out), fmt.Sprint(o.W), fmt.Sprint(o.R), coqlit.Bool(o.Bad))
+			c01RleCoq(o.Out), fmt.Sprint(o.W), fmt.Sprint(o.R), coqlit.Bool(o.Err), coqlit.Bool(o.Hang))
+		if len(o.Out) > 64 {
+			o.Out = o.Out[:64] // keep the evidence small
+		}
 		return Result{Obs: o, Coq: coq, Nontrivial: len(c.Ws) > 1 || (c.Max > 0 && total > c.Max), Class: "free/" + c.Tag}
 	}
 	o := strmRunCtl(c.strmCtlCase)
@@ -540,6 +711,9 @@ func (c01) Shrink(raw json.RawMessage) []any {
 				n.Ws[w] = append(append([][]c01Run{}, c.Ws[w][:j]...), c.Ws[w][j+1:]...)
 				out = append(out, n)
 			}
+		}
+		if len(out) > 6 { // a hanging candidate costs a whole deadline
+			out = out[:6]
 		}
 		return out
 	}
